@@ -78,13 +78,18 @@ func vpC01Oracle(l *vpLedger, ver *common.VersionedTransaction) string {
 }
 
 func TestVP_C01_conservation(t *testing.T) {
-	c := kit.New(t, "C01", "rapid: model-built ledgers (deposits, transfers, submits, claims, mints over 3 assets, mixed pending/finalized) probed with valid spends and one-rule-broken twins (amount +-1 unit, zero output, foreign-asset input, duplicated input, wrong asset id, special-input mixes, free-form amounts); oracle recomputes sums/asset from store read-back for every accepted tx and demands rejection of the twins; non-trivial = accepted tx with >=2 inputs or outputs, or a rejected twin; distinct by payload hash")
-	c.Require("accepted-multi", "twin-amount", "twin-zero", "twin-foreign", "twin-dup", "twin-asset", "mix-special", "freeform", "twin-alias-index")
+	c := kit.New(t, "C01", "rapid: model-built ledgers (deposits, transfers, submits, claims, mints over 3 assets, mixed pending/finalized; in half of the cases holding one finalized transfer with 65..256 outputs, so that probes spend outputs at high indexes) probed with valid spends and one-rule-broken twins (amount +-1 unit, zero output, foreign-asset input, duplicated input, wrong asset id, special-input mixes, free-form amounts); oracle recomputes sums/asset from store read-back for every accepted tx and demands rejection of the twins; non-trivial = accepted tx with >=2 inputs or outputs, or a rejected twin; distinct by payload hash")
+	c.Require("accepted-multi", "twin-amount", "twin-zero", "twin-foreign", "twin-dup", "twin-dup-index>=64", "twin-asset", "mix-special", "freeform", "twin-alias-index")
 	kit.SetChecks(kit.N(120, 6000))
 	rapid.Check(t, func(t *rapid.T) {
 		l := vpLNewLedger(7, "c01", 6)
 		defer l.Close()
 		l.Grow(t, rapid.IntRange(6, 22).Draw(t, "grow"))
+		wideCase := false
+		if rapid.Bool().Draw(t, "wide") {
+			// outputs at indexes up to 255, which the probes then mostly draw from
+			wideCase = l.StepWide(t) > 0
+		}
 		probes := rapid.IntRange(3, 10).Draw(t, "probes")
 		for pi := 0; pi < probes; pi++ {
 			p := l.DrawSpend(t, 4, 4)
@@ -113,6 +118,9 @@ func TestVP_C01_conservation(t *testing.T) {
 			c.Sample(map[string]any{"kind": "valid spend", "inputs": len(ver.Inputs), "outputs": len(ver.Outputs), "sum_units": p.Sum.String(), "asset": l.asset(p.Asset).Name})
 
 			kind := rapid.IntRange(0, 7).Draw(t, "twin")
+			if p.Ins[0].Index >= 64 && rapid.Bool().Draw(t, "twin_dup_high_index") {
+				kind = 3
+			}
 			outs := append([]vpLOut{}, p.Outs...)
 			ins := append([]*vpLUTXO{}, p.Ins...)
 			signers := append([][]int{}, p.Signers...)
@@ -156,6 +164,10 @@ func TestVP_C01_conservation(t *testing.T) {
 				b := vpLBig(outs[0].Amount)
 				outs[0].Amount = vpLInt(b.Add(b, vpLBig(ins[0].Amount)))
 				class = "twin-dup"
+				if ins[0].Index >= 64 {
+					c.Class("twin-dup-index>=64")
+				}
+				_ = wideCase
 			case 4: // transaction asset differs from its inputs' asset
 				for _, a := range l.Assets {
 					if a.Id != asset {
